@@ -431,6 +431,23 @@ func (ig *ingest) cacheDelete(e *Effect) {
 			ok = true
 		}
 		why += " without an upper bound test"
+	} else if key.Op == "elem" && len(key.Args) == 1 && key.Args[0].Op == "filter" && len(key.Args[0].Args) == 3 && key.Args[0].Args[1].Op == "bound" {
+		// the keys were collected first (a filtered copy of the cache's keys): the collecting test must be an upper bound
+		g := key.Args[0].Args[2]
+		neg := false
+		for g.Op == "un" && g.Name == "!" && len(g.Args) == 1 {
+			g, neg = g.Args[0], !neg
+		}
+		b := key.Args[0].Args[1]
+		if g.Op == "bin" && len(g.Args) == 2 {
+			switch {
+			case !neg && g.Name == "<" && g.Args[0].Key() == b.Key(): // k < bound
+				ok = true
+			case neg && g.Name == "<=" && g.Args[1].Key() == b.Key(): // !(bound <= k)
+				ok = true
+			}
+		}
+		why += " collected without an upper bound test"
 	} else if ev.Same(key, k.SHeight) || unfreeze(key).Key() == k.SHeight.Key() {
 		ok = true // the height as read (possibly earlier in the drain: F6.read / F6.delete tie it to the drain's lookup)
 	}
